@@ -281,7 +281,7 @@ func VxC19Arbitrate() {
 		return
 	}
 	// timestamp: eligible snapshot = at or before T (v3) / before T (ltx); pick the more recent eligible one
-	v3ok := v3age >= tAge  // created at now-age-0.5 <= now-tAge  <=>  age+0.5 >= tAge  <=>  age >= tAge
+	v3ok := v3age >= tAge // created at now-age-0.5 <= now-tAge  <=>  age+0.5 >= tAge  <=>  age >= tAge
 	ltxok := ltxSnapAge >= tAge
 	want := vx.And(v3ok, vx.Or(vx.Not(ltxok), v3age < ltxSnapAge))
 	vx.Assert("timestamp-uses-format-with-newer-eligible-snapshot", use == want)
